@@ -175,6 +175,8 @@ def run(ctx):
             for fi in fis:
                 if isinstance(fi.node, ast.Lambda) or not is_generator(fi.node):
                     continue
+                if any(norm(d).endswith('contextmanager') for d in getattr(fi.node, 'decorator_list', [])):
+                    continue        # a context manager hands control to a `with` body of the package, not nodes to a consumer's loop
                 before = len(ctx.findings)
                 uses = check_stale(ctx, fi)
                 n_gen += 1
@@ -281,6 +283,14 @@ def check_replace_unmakes(ctx):
     its links passes walk()'s liveness tests and is yielded although it is no longer part of the tree."""
     from ..cfg import CFG, subnodes
     ctx.rule('R15.4', 'in _set_field / _set_ast every path that overwrites the old value under `unmake` passes _unmake_fst_tree()', 2)
+    from ..struct import called_helpers
+    # what "unmake" is called: the method, or the worker it is a thin wrapper of (`_unmake_fst_trees(stack)`) — a worker that clears links
+    unmake_names = {'_unmake_fst_tree'}
+    for u in ctx.repo.funcs('fst_core', '_unmake_fst_tree'):
+        for g in called_helpers(ctx.repo, u, 2):
+            if any(isinstance(n, ast.Assign) and isinstance(n.value, ast.Constant) and n.value.value is None and
+                   any(isinstance(t, ast.Attribute) and t.attr in ('a', 'f') for t in n.targets) for n in ast.walk(g.node)):
+                unmake_names.add(g.name)
     for q in ('_set_field', '_set_ast'):
         for fi in ctx.repo.funcs('fst_core', q):
             if 'unmake' not in fi.params():
@@ -289,7 +299,7 @@ def check_replace_unmakes(ctx):
             unmakes, writes = set(), []
             for nd in cfg.nodes:
                 for x in subnodes(cfg, nd):
-                    if isinstance(x, ast.Call) and call_name(x) == '_unmake_fst_tree':
+                    if isinstance(x, ast.Call) and call_name(x) in unmake_names:
                         unmakes.add(nd.id)
                     if isinstance(x, ast.Call) and call_name(x) == 'setattr' and len(x.args) == 3:
                         writes.append((nd, x))
